@@ -68,5 +68,20 @@ Theorem gaussian94_write_total : g94_write_total_stmt.
 Proof. exact G94Spec.g94_write_total. Qed.
 Print Assumptions gaussian94_write_total.
 
+From BSE Require Import Model.Turbomole Proofs.TurbomoleDefs Model.NwchemEcp Proofs.NwchemEcpDefs.
+From BSE Require Proofs.TurbomoleSpec Proofs.NwchemEcpSpec.
+(* the Turbomole electron section and the NWChem ECP section (gaussian exponents, coefficients, r exponents, electron counts) *)
+Theorem turbomole_no_number_lost : tm_no_number_lost_stmt.
+Proof. exact TurbomoleSpec.tm_no_number_lost. Qed.
+Print Assumptions turbomole_no_number_lost.
+
+Theorem nwchem_ecp_no_number_lost : nw_ecp_no_number_lost_stmt.
+Proof. exact NwchemEcpSpec.nw_ecp_no_number_lost. Qed.
+Print Assumptions nwchem_ecp_no_number_lost.
+
+Theorem nwchem_whole_file_write_total : nw_all_write_total_stmt.
+Proof. exact NwchemEcpSpec.nw_all_write_total. Qed.
+Print Assumptions nwchem_whole_file_write_total.
+
 Example some_writer_recontracts : exists w, assoc "nwchem" writer_map = Some w /\ forallb recontracting (w_pipeline w) = true /\ w_pipeline w <> [].
 Proof. eexists; split; [vm_compute; reflexivity|]. split; [vm_compute; reflexivity | discriminate]. Qed.
